@@ -121,7 +121,7 @@ func c08One(c *engine.Case, b []byte) {
 }
 
 func runC08(r *engine.Run) {
-	r.Rule = "E1 control-byte abstraction of 'all byte strings': the decoder branches only on the length, the MHDR byte, byte 1 (rejoin type), the FCtrl byte (FOptsLen nibble) and whether the FPort byte is zero; every other byte is copied. Enumerated: MHDR (quick: the 32 values with RFU bits zero + 8 with RFU bits set; thorough: all 256) x length (quick 0..40; thorough 0..80 and 81..256 step 5) x FCtrl byte (quick: 16 FOptsLen x 4 flag nibbles; thorough: all 256) x byte[1] in {0,1,2,3,255} x byte at the candidate FPort position in {0,1,255} x filler {position-distinct, all 0xFF}. The data-independence claim is itself tested: for 8 base frames per MType every position x all 256 byte values. Oracle: accepted (with MHDR bits 4:2 zero) => re-encodes without error to exactly the input, decodes again to a deep-equal frame, and every applicable Validate*MIC returns a boolean. Non-trivial: a distinct byte string the decoder accepted."
+	r.Rule = "E1 control-byte abstraction of 'all byte strings': the decoder branches only on the length, the MHDR byte, byte 1 (rejoin type), the FCtrl byte (FOptsLen nibble) and whether the FPort byte is zero; every other byte is copied. Run sweeps: every contiguous byte range of every base frame set to 00.. / ff.. (multi-byte fields at their conspicuous values); the control-byte fillers include the all-zero one. Enumerated: MHDR (quick: the 32 values with RFU bits zero + 8 with RFU bits set; thorough: all 256) x length (quick 0..40; thorough 0..80 and 81..256 step 5) x FCtrl byte (quick: 16 FOptsLen x 4 flag nibbles; thorough: all 256) x byte[1] in {0,1,2,3,255} x byte at the candidate FPort position in {0,1,255} x filler {position-distinct, all 0xFF}. The data-independence claim is itself tested: for 8 base frames per MType every position x all 256 byte values. Oracle: accepted (with MHDR bits 4:2 zero) => re-encodes without error to exactly the input, decodes again to a deep-equal frame, and every applicable Validate*MIC returns a boolean. Non-trivial: a distinct byte string the decoder accepted."
 	frameHistory(r, 2)
 	r.Assume("coverage-guided fuzzing named in the quantifier is a different family; it is replaced by the control-byte abstraction plus the per-position sweeps that test the abstraction")
 	r.Assume("strings with reserved MHDR bits set are decoded and recorded, not judged (excluded by the property)")
@@ -168,20 +168,23 @@ func runC08(r *engine.Run) {
 	}
 	b1s := []byte{0, 1, 2, 3, 255}
 	ports := []byte{0, 1, 255}
-	sp := (&engine.Space{}).Dim("mhdr", len(mhdrs)).Dim("length", len(lens)).Dim("fctrl", len(fctrls)).Dim("byte1", len(b1s)).Dim("fport-position-byte", len(ports)).Dim("filler", 2)
+	sp := (&engine.Space{}).Dim("mhdr", len(mhdrs)).Dim("length", len(lens)).Dim("fctrl", len(fctrls)).Dim("byte1", len(b1s)).Dim("fport-position-byte", len(ports)).Dim("filler", 3)
 	r.PartDims("control-bytes", sp.Desc(), sp.N(), func(c *engine.Case) {
 		var ch [6]int
 		sp.Decode(c.Index, ch[:])
 		n := lens[ch[1]]
 		b := make([]byte, n)
 		for i := range b {
-			if ch[5] == 0 {
+			switch ch[5] {
+			case 0:
 				b[i] = byte(0x21 + 3*i)
 				if b[i] == 0 {
 					b[i] = 0x7E
 				}
-			} else {
+			case 1:
 				b[i] = 0xFF
+			default:
+				b[i] = 0x00 // every copied field (address, counter, nonce, payload, MIC) at its zero value
 			}
 		}
 		if n > 0 {
@@ -237,6 +240,36 @@ func runC08(r *engine.Run) {
 		i := c.Index - offs[bi]
 		b := append([]byte(nil), bases[bi]...)
 		b[i/256] = byte(i)
+		c08One(c, b)
+	})
+
+	// multi-byte fields at a conspicuous value: every contiguous run of every base frame set to 00.. / ff..
+	// (a MIC, an address, a counter or a nonce of all zeros or all ones is a value like any other)
+	var runTotal uint64
+	runOffs := make([]uint64, len(bases))
+	for i, b := range bases {
+		runOffs[i] = runTotal
+		runTotal += uint64(len(b)*(len(b)+1)/2) * 2
+	}
+	r.PartDims("run-sweeps", []string{fmt.Sprintf("base frames:%d", len(bases)), "run: every contiguous byte range", "value{00, ff}"}, runTotal, func(c *engine.Case) {
+		bi := len(bases) - 1
+		for bi > 0 && runOffs[bi] > c.Index {
+			bi--
+		}
+		i := int(c.Index - runOffs[bi])
+		b := append([]byte(nil), bases[bi]...)
+		v := byte(0x00)
+		if i%2 == 1 {
+			v = 0xFF
+		}
+		i /= 2
+		lo := 0
+		for n := len(b); i >= n-lo; lo++ {
+			i -= n - lo
+		}
+		for k := lo; k <= lo+i; k++ {
+			b[k] = v
+		}
 		c08One(c, b)
 	})
 
